@@ -19,18 +19,19 @@ TYPES_FIX = ['types_fix_f64_ref', 'types_fix_f64_noref', 'types_fix_dec_ref', 't
 TYPES_THOROUGH = ['types_astro_f64_ref', 'types_fix_f64_ref', 'types_fix_f64_noref', 'types_fix_dec_ref', 'types_fix_dec_noref']
 
 PROPS = {
-    'C01': {'level': 'proof', 'quick': ['gen_hasref', 'lemmas_m1_f64', 'lemmas_m1_dec'] + TYPES_REF, 'thorough': TYPES_FIX,
+    'C01': {'level': 'proof', 'quick': ['gen_hasref', 'lemmas_m1_f64', 'lemmas_m1_dec'] + TYPES_REF + ['kani_q_f64:cvt', 'kani_astro_f64:cvt', 'kani_fix_f64:cvt'],
+            'thorough': TYPES_FIX,
             'expect': ['gen_hasref:trait LinearScaledUnit::ratio', 'gen_hasref:trait HasRefUnit::equiv_amount',
                        'gen_hasref:trait HasRefUnit::convert', 'gen_hasref:lemma_C01_L1_requested_unit',
                        'gen_hasref:lemma_C01_L2_same_unit_identity', 'gen_hasref:lemma_C01_L3_equiv_amount_is_converted_amount', 'lemmas_m1_f64:lemma_C01_L4_f64_converted_magnitude']},
-    'C02': {'level': 'proof', 'quick': ['gen_hasref', 'lemmas_m1_f64', 'lemmas_m1_dec'] + TYPES_REF + ['kani_q_f64:m0'], 'thorough': TYPES_FIX,
+    'C02': {'level': 'proof', 'quick': ['gen_hasref', 'lemmas_m1_f64', 'lemmas_m1_dec'] + TYPES_REF + ['kani_q_f64:m0'] + ['kani_q_f64:cops', 'kani_astro_f64:cops', 'kani_fix_f64:cops'], 'thorough': TYPES_FIX,
             'expect': ['gen_hasref:trait HasRefUnit::eq', 'gen_hasref:trait HasRefUnit::partial_cmp',
                        'gen_hasref:lemma_C02_L3_eq_symmetric', 'gen_hasref:lemma_C02_L3_cmp_antisymmetric',
                        'gen_hasref:lemma_C02_L3_cmp_equal_iff_eq', 'gen_hasref:lemma_C02_L1_same_unit_is_amount_comparison', 'lemmas_m1_f64:lemma_C02_L2_f64_physical_order']},
-    'C03': {'level': 'proof', 'quick': ['gen_hasref', 'lemmas_m1_f64', 'lemmas_m1_dec'] + TYPES_REF, 'thorough': TYPES_FIX,
+    'C03': {'level': 'proof', 'quick': ['gen_hasref', 'lemmas_m1_f64', 'lemmas_m1_dec'] + TYPES_REF + ['kani_q_f64:cops', 'kani_astro_f64:cops', 'kani_fix_f64:cops'], 'thorough': TYPES_FIX,
             'expect': ['gen_hasref:trait HasRefUnit::add', 'gen_hasref:trait HasRefUnit::sub', 'gen_hasref:trait HasRefUnit::div',
                        'gen_hasref:lemma_C03_same_unit_is_amount_arithmetic', 'gen_hasref:lemma_C03_result_in_left_unit', 'lemmas_m1_f64:lemma_C03_f64_sum_magnitude', 'lemmas_m1_f64:lemma_C03_f64_ratio_magnitude']},
-    'C04': {'level': 'proof', 'quick': ['gen_hasref', 'lemmas_m1_f64', 'lemmas_m1_dec'] + TYPES_REF, 'thorough': TYPES_FIX,
+    'C04': {'level': 'proof', 'quick': ['gen_hasref', 'lemmas_m1_f64', 'lemmas_m1_dec'] + TYPES_REF + ['kani_q_f64:cderived', 'kani_astro_f64:cderived', 'kani_fix_f64:cderived'], 'thorough': TYPES_FIX,
             'expect': ['gen_hasref:trait HasRefUnit::_fit', 'lemmas_m1_f64:lemma_C04_f64_product_magnitude_fitted', 'lemmas_m1_f64:lemma_C04_f64_quotient_magnitude_natural',
                        'lemmas_m1_f64:lemma_C04_roundtrip_magnitude']},
     'C05': {'level': 'proof', 'quick': ['gen_hasref'] + TYPES_REF + ['kani_q_f64:ufs', 'kani_q_f64:fit', 'kani_q_f64:m0', 'kani_astro_f64:ufs', 'kani_astro_f64:fit'],
@@ -43,7 +44,7 @@ PROPS = {
             'expect': ['c07_q_f64:lemma_C07_scale_Length_Inch', 'c07_q_dec:lemma_C07_scale_Length_Inch', 'c07_astro_f64:lemma_C07_scale_Length_Parsec',
                        'c07_q_f64:lemma_C07_si_prefixes_consistent_Mass', 'types_q_f64_ref:lemma_C07_ref_unit_scale_one_Length',
                        'types_q_f64_ref:impl LinearScaledUnit for LengthUnit::scale']},
-    'C08': {'level': 'proof', 'quick': ['gen_hasref'] + TYPES_Q + ['kani_q_f64:reg', 'kani_q_f64:m0'], 'thorough': TYPES_FIX,
+    'C08': {'level': 'proof', 'quick': ['gen_hasref'] + TYPES_Q + ['kani_q_f64:reg', 'kani_q_f64:m0'] + ['kani_q_f64:cops', 'kani_astro_f64:cops', 'kani_fix_f64:cops'], 'thorough': TYPES_FIX,
             'expect': ['gen_hasref:impl Quantity for AmountT::new', 'gen_hasref:impl Quantity for AmountT::amount',
                        'gen_hasref:impl Quantity for AmountT::unit', 'gen_hasref:impl LinearScaledUnit for One::scale',
                        'gen_hasref:impl Mul < One > for AmountT::mul', 'gen_hasref:impl Mul < AmountT > for One::mul']},
@@ -52,8 +53,8 @@ PROPS = {
             'thorough': TYPES_FIX + ['kani_q_dec:reg', 'kani_q_dec:ufs', 'kani_q_dec:sym', 'kani_q_f64:symc'],
             'expect': ['kani_q_f64:reg::k_reg_Length', 'kani_q_f64:reg::k_asqty_Length', 'kani_q_f64:ufs::k_ufs_Length',
                        'kani_q_f64:sym::k_sym_declared_Length', 'kani_q_f64:reg::k_reg_Temperature']},
-    'C10': {'level': 'proof', 'quick': ['gen_quantity'] + TYPES_NOREF + ['types_fix_f64_noref', 'kani_q_f64:noref'],
-            'thorough': ['types_fix_dec_noref', 'kani_fix_f64:noref', 'kani_fix_f64:reg'],
+    'C10': {'level': 'proof', 'quick': ['gen_quantity'] + TYPES_NOREF + ['types_fix_f64_noref', 'kani_q_f64:noref', 'kani_fix_f64:noref'],
+            'thorough': ['types_fix_dec_noref', 'kani_fix_f64:reg'],
             'expect': ['gen_quantity:trait Quantity::eq', 'gen_quantity:trait Quantity::partial_cmp', 'gen_quantity:trait Quantity::add',
                        'gen_quantity:trait Quantity::sub', 'gen_quantity:trait Quantity::div',
                        'gen_quantity:lemma_C10_equal_only_if_same_unit_and_amount', 'gen_quantity:lemma_C10_different_units_unordered']},
@@ -62,12 +63,19 @@ PROPS = {
                        'c14_q_f64:lemma_C14_compose_Kelvin_Degree_Celsius_Degree_Fahrenheit']},
     'C16': {'level': 'proof', 'quick': ['kani_q_f64:si', 'kani_q_f64:si2'],
             'expect': ['kani_q_f64:si::k_si_from_exp_all', 'kani_q_f64:si::k_si_iter', 'kani_q_f64:si::k_si_row_KILO']},
-    'C18': {'level': 'proof', 'quick': ['gen_hasref', 'gen_quantity', 'types_q_f64_ref', 'types_q_f64_noref', 'kani_q_f64:total', 'kani_q_f64:totald',
+    'C18': {'level': 'proof', 'quick': ['gen_hasref', 'gen_hasref_decok', 'gen_quantity', 'types_q_f64_ref', 'types_q_f64_noref', 'kani_q_f64:total', 'kani_q_f64:totald',
                                           'kani_q_f64:ufs', 'kani_q_f64:fit', 'kani_q_f64:sym', 'kani_q_f64:conv', 'kani_q_f64:noref',
                                           'types_astro_f64_ref', 'kani_astro_f64:total', 'kani_astro_f64:totald', 'kani_astro_f64:ufs', 'kani_astro_f64:fit'],
             'thorough': TYPES_FIX + ['kani_fix_f64:total', 'kani_fix_f64:totald', 'kani_fix_f64:ufs', 'kani_fix_f64:fit', 'kani_fix_f64:sym', 'kani_fix_f64:noref'],
-            'expect': ['gen_hasref:trait HasRefUnit::_fit', 'kani_q_f64:fit::k_fit_Length', 'kani_q_f64:total::k_total_like_Length']},
-    'C13': {'level': 'proof', 'quick': ['gen_quantity', 'lemmas_m1_f64'] + TYPES_Q, 'thorough': TYPES_FIX,
+            'expect': ['gen_hasref:trait HasRefUnit::_fit', 'kani_q_f64:fit::k_fit_Length', 'kani_q_f64:total::k_total_like_Length',
+                       'kani_q_f64:total::k_total_rate_Length_per_Duration',
+                       'gen_hasref_decok:trait HasRefUnit::equiv_amount', 'gen_hasref_decok:trait HasRefUnit::div', 'gen_hasref_decok:trait HasRefUnit::_fit',
+                       'gen_hasref_decok:lemma_C18_dec_equiv_amount_total', 'gen_hasref_decok:lemma_C18_dec_comparison_total',
+                       'gen_hasref_decok:lemma_C18_dec_sum_difference_total', 'gen_hasref_decok:lemma_C18_dec_ratio_total',
+                       'gen_hasref_decok:lemma_C18_dec_fit_total'],
+            'assumptions': ['A-fpdec-range (decimal half, contracts/lemmas_c18_dec.vrs ax_fpdec_*): an fpdec operation whose operands and exact result are at most 1e20 in absolute value, divisor non-zero, does not panic - read off fpdec 0.11 (i128 coefficient, at most 18 fractional digits), not verified',
+                            'decimal half covers the generic HasRefUnit methods (equiv_amount, convert, eq, partial_cmp, add, sub, div, _fit) and LinearScaledUnit::ratio; the generated derived operators and the rate operators are decided for the f64 configuration only']},
+    'C13': {'level': 'proof', 'quick': ['gen_quantity', 'lemmas_m1_f64'] + TYPES_Q + ['kani_q_f64:crt', 'kani_astro_f64:crt', 'kani_fix_f64:crt'], 'thorough': TYPES_FIX,
             'expect': ['gen_quantity:impl Rate::new', 'gen_quantity:impl Rate::from_qty_vals', 'gen_quantity:impl Rate::term_amount',
                        'gen_quantity:impl Rate::term_unit', 'gen_quantity:impl Rate::per_unit_multiple', 'gen_quantity:impl Rate::per_unit',
                        'gen_quantity:impl Rate::reciprocal', 'gen_quantity:impl Mul<PQ> for Rate::mul', 'gen_quantity:trait Unit::unit_as_qty',
